@@ -5,13 +5,13 @@ go 1.23
 toolchain go1.23.5
 
 require (
+	github.com/RoaringBitmap/roaring v0.9.4
 	github.com/anishathalye/porcupine v1.3.0
 	github.com/blugelabs/bluge v0.0.0
 	pgregory.net/rapid v1.3.0
 )
 
 require (
-	github.com/RoaringBitmap/roaring v0.9.4 // indirect
 	github.com/axiomhq/hyperloglog v0.0.0-20191112132149-a4c4c47bc57f // indirect
 	github.com/bits-and-blooms/bitset v1.2.0 // indirect
 	github.com/blevesearch/go-porterstemmer v1.0.3 // indirect
